@@ -28,6 +28,9 @@ func (m *Limit) Run(ctx ExecutionContext, produce ProduceFn, metaSend MetaSendFn
 		return fmt.Errorf("couldn't evaluate limit expression: %w", err)
 	}
 
+	if limit.Int < 0 {
+		return fmt.Errorf("limit must be positive, got %d", limit.Int)
+	}
 	if limit.Int == 0 {
 		return nil
 	}
